@@ -5,16 +5,24 @@
   `thetaCandidates p pose` whose branch conditions hold reproduces the pose under the forward model.
 
   Stages (every one a compiled lemma, nothing left open):
-  * P   planar two-link geometry (`two_link`, `elbow_polar`, `planar_front_up`, …);
-  * A   the arm rows: `arm_row1 … arm_row4` (wrist centre of the forward model = wrist centre of
-        the pose);
-  * W   the wrist: ZYZ decomposition of a rotation matrix (`rce_of_zyz`), `roe_cand`;
-  * F   assembly (`forwardTheta_cand`, flipped twins, lift through `jointsOf`);
-  * Q   `angleTo` of unit quaternions with the same matrix is `0`, the cross-check passes.
+  * P   planar two-link geometry (`two_link`, `elbow_polar`, `planar_up`, `planar_down`) and the
+        shoulder (`shoulder_polar`, `shoulder_front`, `shoulder_back`);
+  * A   the arm rows: `FrontReach`, `BackReach`, `arm_plane_row1 … 4`, `wc_front`, `wc_back`,
+        `arm_row1 … arm_row4` (wrist centre of the forward model = wrist centre of the pose);
+  * W   the wrist: ZYZ decomposition of a rotation matrix (`rce_of_zyz`), `wristTarget`, `mmOf`,
+        `wristSol_spec`, `roe_cand`; the wrist condition (`mm_ne_of_sin_j5`, `sin_j5_of_mm_ne`);
+  * F   assembly (`wc_add`, `forwardTheta_of_parts`, `ArmCond`, `arm_sound_idx`, `wrist_sound_mem`,
+        `candidate_sound_idx`, `candidate_sound_mem`);
+  * Q   `angleTo` of unit quaternions with the same matrix is `0` (`angleTo_of_toMat_eq`), the
+        cross-check passes (`comparePoses_of_same`, `finish_of_forwardTheta`), 5-DOF
+        (`roe_ez_congr5`, `finish5_of_forwardTheta`);
+  * remarks (`shoulder_ratio_range`, `frontReach_poseOf`, `backReach_poseOf`) and the concrete
+        instance `pX`, `poseX` with all branch conditions (`armCond_X`, `wristCond_X`).
 -/
 import OpwVerif.Lemmas.IkComplete
 import OpwVerif.Lemmas.Corollaries
 import OpwVerif.Lemmas.Stack
+import OpwVerif.Lemmas.SoundReal
 
 attribute [-simp] Opw.ofNatLit_real
 
@@ -92,5 +100,792 @@ theorem elbow_polar (c2 κ s : ℝ) (hc : 0 < c2) (hk : 0 < κ) (hs : 0 ≤ s)
         rw [mul_pow, this]; field_simp
       rw [e1, hS]; linear_combination hlaw
     exact (sq_eq_sq₀ hw0 h1).mp hsq
+
+/-- both elbow configurations for a target `√s e^{it}` -/
+theorem planar_up (c2 κ s t : ℝ) (hc : 0 < c2) (hk : 0 < κ) (hs : 0 ≤ s)
+    (hb1 : -1 ≤ (s - c2 * c2 - κ * κ) / (2 * c2 * κ)) (hb2 : (s - c2 * c2 - κ * κ) / (2 * c2 * κ) ≤ 1)
+    {A B t2 t23 : ℝ} (hA : A = Real.arccos ((s + c2 * c2 - κ * κ) / (2 * Real.sqrt s * c2)))
+    (hB : B = Real.arccos ((s - c2 * c2 - κ * κ) / (2 * c2 * κ)))
+    (h2 : t2 = t - A) (h23 : t23 = t - A + B) :
+    c2 * Real.cos t2 + κ * Real.cos t23 = Real.sqrt s * Real.cos t ∧
+      c2 * Real.sin t2 + κ * Real.sin t23 = Real.sqrt s * Real.sin t := by
+  obtain ⟨e1, e2⟩ := elbow_polar c2 κ s hc hk hs hb1 hb2
+  rw [← hA, ← hB] at e1 e2
+  rw [h2, h23]
+  exact two_link c2 κ _ A B t e1 e2
+
+theorem planar_down (c2 κ s t : ℝ) (hc : 0 < c2) (hk : 0 < κ) (hs : 0 ≤ s)
+    (hb1 : -1 ≤ (s - c2 * c2 - κ * κ) / (2 * c2 * κ)) (hb2 : (s - c2 * c2 - κ * κ) / (2 * c2 * κ) ≤ 1)
+    {A B t2 t23 : ℝ} (hA : A = Real.arccos ((s + c2 * c2 - κ * κ) / (2 * Real.sqrt s * c2)))
+    (hB : B = Real.arccos ((s - c2 * c2 - κ * κ) / (2 * c2 * κ)))
+    (h2 : t2 = t + A) (h23 : t23 = t + A - B) :
+    c2 * Real.cos t2 + κ * Real.cos t23 = Real.sqrt s * Real.cos t ∧
+      c2 * Real.sin t2 + κ * Real.sin t23 = Real.sqrt s * Real.sin t := by
+  obtain ⟨e1, e2⟩ := elbow_polar c2 κ s hc hk hs hb1 hb2
+  rw [← hA, ← hB] at e1 e2
+  have e1' : c2 + κ * Real.cos (-B) = Real.sqrt s * Real.cos (-A) := by
+    rw [Real.cos_neg, Real.cos_neg]; exact e1
+  have e2' : κ * Real.sin (-B) = Real.sqrt s * Real.sin (-A) := by
+    rw [Real.sin_neg, Real.sin_neg]; linear_combination -e2
+  have := two_link c2 κ _ (-A) (-B) t e1' e2'
+  rw [h2, h23, show t + A = t - -A by ring, show t - -A - B = t - -A + -B by ring]
+  exact this
+
+/-! ### Shoulder: the horizontal position of the wrist centre -/
+
+theorem shoulder_polar (x y b : ℝ) (h : 0 ≤ x * x + y * y - b * b) :
+    Real.sqrt (x * x + y * y - b * b) =
+        Real.sqrt (x * x + y * y) * Real.cos (Complex.arg ⟨Real.sqrt (x * x + y * y - b * b), b⟩) ∧
+      b = Real.sqrt (x * x + y * y) * Real.sin (Complex.arg ⟨Real.sqrt (x * x + y * y - b * b), b⟩) := by
+  have hr := Real.mul_self_sqrt h
+  have e : Real.sqrt (x * x + y * y - b * b) * Real.sqrt (x * x + y * y - b * b) + b * b =
+      x * x + y * y := by rw [hr]; ring
+  have h1 := re_eq_norm_cos (Real.sqrt (x * x + y * y - b * b)) b
+  have h2 := im_eq_norm_sin (Real.sqrt (x * x + y * y - b * b)) b
+  rw [e] at h1 h2
+  exact ⟨h1, h2⟩
+
+/-- front shoulder: `(r + i b) e^{iθ1} = x + i y` for `θ1 = atan2(y, x) − atan2(b, r)` -/
+theorem shoulder_front (x y b : ℝ) (h : 0 ≤ x * x + y * y - b * b) {r t1 : ℝ}
+    (hr : r = Real.sqrt (x * x + y * y - b * b))
+    (h1 : t1 = Complex.arg ⟨x, y⟩ - Complex.arg ⟨r, b⟩) :
+    r * Real.cos t1 - b * Real.sin t1 = x ∧ r * Real.sin t1 + b * Real.cos t1 = y := by
+  obtain ⟨er, eb⟩ := shoulder_polar x y b h
+  rw [← hr] at er eb
+  have ex := re_eq_norm_cos x y
+  have ey := im_eq_norm_sin x y
+  set D := Real.sqrt (x * x + y * y)
+  set α := Complex.arg ⟨x, y⟩
+  set β := Complex.arg ⟨r, b⟩
+  have ec : Real.cos α = Real.cos β * Real.cos (α - β) - Real.sin β * Real.sin (α - β) := by
+    rw [← Real.cos_add]; congr 1; ring
+  have es : Real.sin α = Real.sin β * Real.cos (α - β) + Real.cos β * Real.sin (α - β) := by
+    rw [← Real.sin_add]; congr 1; ring
+  rw [h1]
+  constructor
+  · rw [ex, ec]; linear_combination Real.cos (α - β) * er - Real.sin (α - β) * eb
+  · rw [ey, es]; linear_combination Real.sin (α - β) * er + Real.cos (α - β) * eb
+
+/-- back shoulder: `(−r + i b) e^{iθ1} = x + i y` for `θ1 = atan2(y, x) + atan2(b, r) − π` -/
+theorem shoulder_back (x y b : ℝ) (h : 0 ≤ x * x + y * y - b * b) {r t1 : ℝ}
+    (hr : r = Real.sqrt (x * x + y * y - b * b))
+    (h1 : t1 = Complex.arg ⟨x, y⟩ + Complex.arg ⟨r, b⟩ - Real.pi) :
+    -r * Real.cos t1 - b * Real.sin t1 = x ∧ -r * Real.sin t1 + b * Real.cos t1 = y := by
+  obtain ⟨er, eb⟩ := shoulder_polar x y b h
+  rw [← hr] at er eb
+  have ex := re_eq_norm_cos x y
+  have ey := im_eq_norm_sin x y
+  set D := Real.sqrt (x * x + y * y)
+  set α := Complex.arg ⟨x, y⟩
+  set β := Complex.arg ⟨r, b⟩
+  have ec : Real.cos α = Real.cos β * Real.cos (α + β) + Real.sin β * Real.sin (α + β) := by
+    have := Real.cos_sub (α + β) β
+    rw [show α + β - β = α by ring] at this
+    rw [this]; ring
+  have es : Real.sin α = Real.cos β * Real.sin (α + β) - Real.sin β * Real.cos (α + β) := by
+    have := Real.sin_sub (α + β) β
+    rw [show α + β - β = α by ring] at this
+    rw [this]; ring
+  rw [h1, Real.cos_sub_pi, Real.sin_sub_pi]
+  constructor
+  · rw [ex, ec]; linear_combination Real.cos (α + β) * er + Real.sin (α + β) * eb
+  · rw [ey, es]; linear_combination Real.sin (α + β) * er - Real.cos (α + β) * eb
+
+/-! ### A. The four arm rows -/
+
+/-- front shoulder reaches the wrist centre `c`: the square root of the shoulder is real and the
+argument of the elbow `acos` (`tmp11`) lies in `[−1, 1]` -/
+def FrontReach (p : Params ℝ) (c : V3 ℝ) : Prop :=
+  0 ≤ (c.x * c.x + c.y * c.y) - p.b * p.b ∧
+    -1 ≤ (s1sq p c - p.c2 * p.c2 - kappa2 p) / tmp9 p ∧
+    (s1sq p c - p.c2 * p.c2 - kappa2 p) / tmp9 p ≤ 1
+
+/-- back shoulder reaches the wrist centre `c` (`tmp12` in `[−1, 1]`) -/
+def BackReach (p : Params ℝ) (c : V3 ℝ) : Prop :=
+  0 ≤ (c.x * c.x + c.y * c.y) - p.b * p.b ∧
+    -1 ≤ (s2sq p c - p.c2 * p.c2 - kappa2 p) / tmp9 p ∧
+    (s2sq p c - p.c2 * p.c2 - kappa2 p) / tmp9 p ≤ 1
+
+theorem kappa_mul_self (p : Params ℝ) : kappa p * kappa p = kappa2 p := by
+  rw [kappa2_eq]; ring
+
+theorem s1sq_nonneg (p : Params ℝ) (c : V3 ℝ) : 0 ≤ s1sq p c := by
+  unfold s1sq; nlinarith [mul_self_nonneg (nx1 p c), mul_self_nonneg (c.z - p.c1)]
+
+theorem s2sq_nonneg (p : Params ℝ) (c : V3 ℝ) : 0 ≤ s2sq p c := by
+  unfold s2sq; nlinarith [mul_self_nonneg (nx1 p c + 2 * p.a1), mul_self_nonneg (c.z - p.c1)]
+
+theorem s1sq_polar (p : Params ℝ) (c : V3 ℝ) :
+    Real.sqrt (s1sq p c) * Real.cos (tmp14 p c) = c.z - p.c1 ∧
+      Real.sqrt (s1sq p c) * Real.sin (tmp14 p c) = nx1 p c := by
+  have e : s1sq p c = (c.z - p.c1) * (c.z - p.c1) + nx1 p c * nx1 p c := by unfold s1sq; ring
+  rw [e]
+  exact ⟨(re_eq_norm_cos _ _).symm, (im_eq_norm_sin _ _).symm⟩
+
+theorem s2sq_polar (p : Params ℝ) (c : V3 ℝ) :
+    Real.sqrt (s2sq p c) * Real.cos (tmp16 p c) = c.z - p.c1 ∧
+      Real.sqrt (s2sq p c) * Real.sin (tmp16 p c) = nx1 p c + 2 * p.a1 := by
+  have e : s2sq p c = (c.z - p.c1) * (c.z - p.c1) + (nx1 p c + 2 * p.a1) * (nx1 p c + 2 * p.a1) := by
+    unfold s2sq; ring
+  rw [e]
+  exact ⟨(re_eq_norm_cos _ _).symm, (im_eq_norm_sin _ _).symm⟩
+
+theorem elbow_arg_eq (p : Params ℝ) (s : ℝ) :
+    (s - p.c2 * p.c2 - kappa2 p) / tmp9 p =
+      (s - p.c2 * p.c2 - kappa p * kappa p) / (2 * p.c2 * kappa p) := by
+  rw [kappa_mul_self, tmp9_eq]
+
+theorem tmp13_eq (p : Params ℝ) (c : V3 ℝ) :
+    tmp13 p c = Real.arccos ((s1sq p c + p.c2 * p.c2 - kappa p * kappa p) /
+      (2 * Real.sqrt (s1sq p c) * p.c2)) := by
+  rw [kappa_mul_self]; unfold tmp13; rw [lit2]; rfl
+
+theorem tmp15_eq (p : Params ℝ) (c : V3 ℝ) :
+    tmp15 p c = Real.arccos ((s2sq p c + p.c2 * p.c2 - kappa p * kappa p) /
+      (2 * Real.sqrt (s2sq p c) * p.c2)) := by
+  rw [kappa_mul_self]; unfold tmp15; rw [lit2]; rfl
+
+theorem tmp11_eq (p : Params ℝ) (c : V3 ℝ) :
+    tmp11 p c = Real.arccos ((s1sq p c - p.c2 * p.c2 - kappa p * kappa p) / (2 * p.c2 * kappa p)) := by
+  rw [← elbow_arg_eq]; rfl
+
+theorem tmp12_eq (p : Params ℝ) (c : V3 ℝ) :
+    tmp12 p c = Real.arccos ((s2sq p c - p.c2 * p.c2 - kappa p * kappa p) / (2 * p.c2 * kappa p)) := by
+  rw [← elbow_arg_eq]; rfl
+
+/-- the arm-plane coordinates of the wrist centre for rows 1 and 2 -/
+theorem arm_plane_row1 (p : Params ℝ) (c : V3 ℝ) (hc : 0 < p.c2) (hk : 0 < kappa p)
+    (h : FrontReach p c) {θ : J6 ℝ} (h2 : θ.j2 = th2i p c) (h3 : θ.j3 = th3i p c) :
+    cz1 p θ = c.z - p.c1 ∧ armX p θ = nx1 p c := by
+  obtain ⟨-, hb1, hb2⟩ := h
+  rw [elbow_arg_eq] at hb1 hb2
+  obtain ⟨pc, ps⟩ := s1sq_polar p c
+  obtain ⟨e1, e2⟩ := planar_up p.c2 (kappa p) (s1sq p c) (tmp14 p c) hc hk (s1sq_nonneg p c) hb1 hb2
+    (tmp13_eq p c) (tmp11_eq p c) (t2 := θ.j2) (t23 := θ.j2 + θ.j3 + psi3 p)
+    (by rw [h2]; unfold th2i; ring)
+    (by rw [h2, h3]; unfold th2i th3i; show _ + (_ - psi3 p) + _ = _; ring)
+  exact ⟨e1.trans pc, e2.trans ps⟩
+
+theorem arm_plane_row2 (p : Params ℝ) (c : V3 ℝ) (hc : 0 < p.c2) (hk : 0 < kappa p)
+    (h : FrontReach p c) {θ : J6 ℝ} (h2 : θ.j2 = th2ii p c) (h3 : θ.j3 = th3ii p c) :
+    cz1 p θ = c.z - p.c1 ∧ armX p θ = nx1 p c := by
+  obtain ⟨-, hb1, hb2⟩ := h
+  rw [elbow_arg_eq] at hb1 hb2
+  obtain ⟨pc, ps⟩ := s1sq_polar p c
+  obtain ⟨e1, e2⟩ := planar_down p.c2 (kappa p) (s1sq p c) (tmp14 p c) hc hk (s1sq_nonneg p c) hb1 hb2
+    (tmp13_eq p c) (tmp11_eq p c) (t2 := θ.j2) (t23 := θ.j2 + θ.j3 + psi3 p)
+    (by rw [h2]; unfold th2ii; ring)
+    (by rw [h2, h3]; unfold th2ii th3ii; show _ + (_ - psi3 p) + _ = _; ring)
+  exact ⟨e1.trans pc, e2.trans ps⟩
+
+/-- rows 3 and 4 (back shoulder): the arm points to `−(nx1 + 2 a1)` -/
+theorem arm_plane_row3 (p : Params ℝ) (c : V3 ℝ) (hc : 0 < p.c2) (hk : 0 < kappa p)
+    (h : BackReach p c) {θ : J6 ℝ} (h2 : θ.j2 = th2iii p c) (h3 : θ.j3 = th3iii p c) :
+    cz1 p θ = c.z - p.c1 ∧ armX p θ = -(nx1 p c + 2 * p.a1) := by
+  obtain ⟨-, hb1, hb2⟩ := h
+  rw [elbow_arg_eq] at hb1 hb2
+  obtain ⟨pc, ps⟩ := s2sq_polar p c
+  obtain ⟨e1, e2⟩ := planar_up p.c2 (kappa p) (s2sq p c) (-tmp16 p c) hc hk (s2sq_nonneg p c) hb1 hb2
+    (tmp15_eq p c) (tmp12_eq p c) (t2 := θ.j2) (t23 := θ.j2 + θ.j3 + psi3 p)
+    (by rw [h2]; unfold th2iii; ring)
+    (by rw [h2, h3]; unfold th2iii th3iii; show _ + (_ - psi3 p) + _ = _; ring)
+  rw [Real.cos_neg] at e1
+  rw [Real.sin_neg] at e2
+  exact ⟨e1.trans pc, by rw [← ps]; unfold armX; linear_combination e2⟩
+
+theorem arm_plane_row4 (p : Params ℝ) (c : V3 ℝ) (hc : 0 < p.c2) (hk : 0 < kappa p)
+    (h : BackReach p c) {θ : J6 ℝ} (h2 : θ.j2 = th2iv p c) (h3 : θ.j3 = th3iv p c) :
+    cz1 p θ = c.z - p.c1 ∧ armX p θ = -(nx1 p c + 2 * p.a1) := by
+  obtain ⟨-, hb1, hb2⟩ := h
+  rw [elbow_arg_eq] at hb1 hb2
+  obtain ⟨pc, ps⟩ := s2sq_polar p c
+  obtain ⟨e1, e2⟩ := planar_down p.c2 (kappa p) (s2sq p c) (-tmp16 p c) hc hk (s2sq_nonneg p c) hb1 hb2
+    (tmp15_eq p c) (tmp12_eq p c) (t2 := θ.j2) (t23 := θ.j2 + θ.j3 + psi3 p)
+    (by rw [h2]; unfold th2iv; ring)
+    (by rw [h2, h3]; unfold th2iv th3iv; show _ + (_ - psi3 p) + _ = _; ring)
+  rw [Real.cos_neg] at e1
+  rw [Real.sin_neg] at e2
+  exact ⟨e1.trans pc, by rw [← ps]; unfold armX; linear_combination e2⟩
+
+/-- front shoulder: from the arm-plane coordinates to the wrist centre in base coordinates -/
+theorem wc_front (p : Params ℝ) (c : V3 ℝ) (hr : 0 ≤ (c.x * c.x + c.y * c.y) - p.b * p.b) {θ : J6 ℝ}
+    (h1 : θ.j1 = th1i p c) (hz : cz1 p θ = c.z - p.c1) (hx : armX p θ = nx1 p c) :
+    wcθ p θ = c := by
+  have hcx : cx1 p θ = Real.sqrt (c.x * c.x + c.y * c.y - p.b * p.b) := by
+    unfold cx1; rw [hx]; unfold nx1; show Real.sqrt _ - p.a1 + p.a1 = _; ring
+  obtain ⟨ex, ey⟩ := shoulder_front c.x c.y p.b hr (r := cx1 p θ) (t1 := θ.j1) hcx
+    (by rw [h1, hcx]; unfold th1i nx1
+        show Complex.arg ⟨c.x, c.y⟩ - Complex.arg ⟨Real.sqrt _ - p.a1 + p.a1, p.b⟩ = _
+        rw [sub_add_cancel])
+  apply V3.ext'
+  · exact ex
+  · exact ey
+  · show cz1 p θ + p.c1 = c.z
+    rw [hz]; ring
+
+/-- back shoulder -/
+theorem wc_back (p : Params ℝ) (c : V3 ℝ) (hr : 0 ≤ (c.x * c.x + c.y * c.y) - p.b * p.b) {θ : J6 ℝ}
+    (h1 : θ.j1 = th1ii p c) (hz : cz1 p θ = c.z - p.c1) (hx : armX p θ = -(nx1 p c + 2 * p.a1)) :
+    wcθ p θ = c := by
+  have hcx : cx1 p θ = -Real.sqrt (c.x * c.x + c.y * c.y - p.b * p.b) := by
+    unfold cx1; rw [hx]; unfold nx1; show -(Real.sqrt _ - p.a1 + 2 * p.a1) + p.a1 = _; ring
+  obtain ⟨ex, ey⟩ := shoulder_back c.x c.y p.b hr (r := Real.sqrt (c.x * c.x + c.y * c.y - p.b * p.b))
+    (t1 := θ.j1) rfl
+    (by rw [h1]; unfold th1ii nx1
+        show Complex.arg ⟨c.x, c.y⟩ + Complex.arg ⟨Real.sqrt _ - p.a1 + p.a1, p.b⟩ - Real.pi = _
+        rw [sub_add_cancel])
+  rw [← hcx] at ex ey
+  apply V3.ext'
+  · exact ex
+  · exact ey
+  · show cz1 p θ + p.c1 = c.z
+    rw [hz]; ring
+
+/-- rows 1 … 4: the forward model puts the wrist centre of the candidate at `c` -/
+theorem arm_row1 (p : Params ℝ) (c : V3 ℝ) (m : M3 ℝ) (hc : 0 < p.c2) (hk : 0 < kappa p)
+    (h : FrontReach p c) : wcθ p (cand m (th1i p c) (th2i p c) (th3i p c)) = c := by
+  obtain ⟨hz, hx⟩ := arm_plane_row1 p c hc hk h (θ := cand m (th1i p c) (th2i p c) (th3i p c)) rfl rfl
+  exact wc_front p c h.1 rfl hz hx
+
+theorem arm_row2 (p : Params ℝ) (c : V3 ℝ) (m : M3 ℝ) (hc : 0 < p.c2) (hk : 0 < kappa p)
+    (h : FrontReach p c) : wcθ p (cand m (th1i p c) (th2ii p c) (th3ii p c)) = c := by
+  obtain ⟨hz, hx⟩ := arm_plane_row2 p c hc hk h (θ := cand m (th1i p c) (th2ii p c) (th3ii p c)) rfl rfl
+  exact wc_front p c h.1 rfl hz hx
+
+theorem arm_row3 (p : Params ℝ) (c : V3 ℝ) (m : M3 ℝ) (hc : 0 < p.c2) (hk : 0 < kappa p)
+    (h : BackReach p c) : wcθ p (cand m (th1ii p c) (th2iii p c) (th3iii p c)) = c := by
+  obtain ⟨hz, hx⟩ := arm_plane_row3 p c hc hk h (θ := cand m (th1ii p c) (th2iii p c) (th3iii p c)) rfl rfl
+  exact wc_back p c h.1 rfl hz hx
+
+theorem arm_row4 (p : Params ℝ) (c : V3 ℝ) (m : M3 ℝ) (hc : 0 < p.c2) (hk : 0 < kappa p)
+    (h : BackReach p c) : wcθ p (cand m (th1ii p c) (th2iv p c) (th3iv p c)) = c := by
+  obtain ⟨hz, hx⟩ := arm_plane_row4 p c hc hk h (θ := cand m (th1ii p c) (th2iv p c) (th3iv p c)) rfl rfl
+  exact wc_back p c h.1 rfl hz hx
+
+/-- the wrist centre of the forward model does not depend on the wrist angles -/
+theorem wcθ_flip (p : Params ℝ) (t : J6 ℝ) : wcθ p (flipG t) = wcθ p t := rfl
+
+/-! ### W. The wrist: ZYZ decomposition of a rotation matrix -/
+
+theorem eq_of_sq_mul {s x y : ℝ} (hs : s ≠ 0) (h : s * s * (x - y) = 0) : x = y := by
+  rcases mul_eq_zero.mp h with h | h
+  · exact absurd (mul_self_eq_zero.mp h) hs
+  · linarith
+
+/-- a rotation matrix `N` whose `(3,3)` entry is not `±1` is `Rz(θ4) Ry(θ5) Rz(θ6)` for sines and
+cosines that satisfy `s5 c4 = N02`, `s5 s4 = N12`, `s5 c6 = −N20`, `s5 s6 = N21`, `c5 = N22`,
+`s5² = 1 − N22²`, `s5 ≠ 0` -/
+theorem rce_of_zyz (N : M3 ℝ) (hN : IsRot N) {s4 c4 s5 c5 s6 c6 : ℝ} (h5 : s5 ≠ 0)
+    (hc5 : c5 = N.m22) (hs5 : s5 * s5 = 1 - N.m22 * N.m22)
+    (h4c : s5 * c4 = N.m02) (h4s : s5 * s4 = N.m12) (h6c : s5 * c6 = -N.m20) (h6s : s5 * s6 = N.m21) :
+    rce s4 c4 s5 c5 s6 c6 = N := by
+  have e := hN.eqs
+  have k00 : -N.m02 * N.m20 * N.m22 - N.m12 * N.m21 = (1 - N.m22 * N.m22) * N.m00 := by
+    linear_combination (-N.m20) * e.hr02 - N.m21 * e.hk12 + N.m00 * e.hr22
+  have k01 : -N.m02 * N.m22 * N.m21 + N.m12 * N.m20 = (1 - N.m22 * N.m22) * N.m01 := by
+    linear_combination (-N.m21) * e.hr02 + N.m20 * e.hk12 + N.m01 * e.hr22
+  have k10 : -N.m12 * N.m22 * N.m20 + N.m02 * N.m21 = (1 - N.m22 * N.m22) * N.m10 := by
+    linear_combination (-N.m20) * e.hr12 + N.m21 * e.hk02 + N.m10 * e.hr22
+  have k11 : -N.m12 * N.m22 * N.m21 - N.m02 * N.m20 = (1 - N.m22 * N.m22) * N.m11 := by
+    linear_combination (-N.m21) * e.hr12 - N.m20 * e.hk02 + N.m11 * e.hr22
+  subst hc5
+  apply M3.ext' <;> simp only [rce]
+  · apply eq_of_sq_mul h5
+    linear_combination (s5 * c6 * N.m22) * h4c + (N.m02 * N.m22) * h6c - (s5 * s6) * h4s - N.m12 * h6s
+      - N.m00 * hs5 + k00
+  · apply eq_of_sq_mul h5
+    linear_combination (-(s5 * s6 * N.m22)) * h4c - (N.m02 * N.m22) * h6s - (s5 * c6) * h4s - N.m12 * h6c
+      - N.m01 * hs5 + k01
+  · linear_combination h4c
+  · apply eq_of_sq_mul h5
+    linear_combination (s5 * c6 * N.m22) * h4s + (N.m12 * N.m22) * h6c + (s5 * s6) * h4c + N.m02 * h6s
+      - N.m10 * hs5 + k10
+  · apply eq_of_sq_mul h5
+    linear_combination (-(s5 * s6 * N.m22)) * h4s - (N.m12 * N.m22) * h6s + (s5 * c6) * h4c + N.m02 * h6c
+      - N.m11 * hs5 + k11
+  · linear_combination h4s
+  · linear_combination -h6c
+  · linear_combination h6s
+
+/-- `R0c(θ1,θ2,θ3)ᵀ · R`, the rotation the wrist has to produce -/
+noncomputable def wristTarget (R : M3 ℝ) (t1 t2 t3 : ℝ) : M3 ℝ :=
+  (r0c (Real.sin t1) (Real.cos t1) (Real.sin t2) (Real.cos t2) (Real.sin t3) (Real.cos t3)).transpose.mul R
+
+/-- the `(3,3)` entry of `R0cᵀ R` as the solver computes it (`cos θ5`) -/
+noncomputable def mmOf (R : M3 ℝ) (t1 t23 : ℝ) : ℝ :=
+  R.m02 * Real.sin t23 * Real.cos t1 + R.m12 * Real.sin t23 * Real.sin t1 + R.m22 * Real.cos t23
+
+theorem IsRot_wristTarget {R : M3 ℝ} (hR : IsRot R) (t1 t2 t3 : ℝ) : IsRot (wristTarget R t1 t2 t3) :=
+  (IsRot_r0c t1 t2 t3).transpose.mul hR
+
+theorem r0c_mul_wristTarget (R : M3 ℝ) (t1 t2 t3 : ℝ) :
+    (r0c (Real.sin t1) (Real.cos t1) (Real.sin t2) (Real.cos t2) (Real.sin t3) (Real.cos t3)).mul
+      (wristTarget R t1 t2 t3) = R := by
+  unfold wristTarget
+  rw [← M3.mul_assoc, (IsRot_r0c t1 t2 t3).mt, M3.one_mul]
+
+theorem wristTarget_entries (R : M3 ℝ) (t1 t2 t3 : ℝ) :
+    (wristTarget R t1 t2 t3).m22 = mmOf R t1 (t2 + t3) ∧
+    (wristTarget R t1 t2 t3).m12 = R.m12 * Real.cos t1 - R.m02 * Real.sin t1 ∧
+    (wristTarget R t1 t2 t3).m02 =
+      R.m02 * Real.cos (t2 + t3) * Real.cos t1 + R.m12 * Real.cos (t2 + t3) * Real.sin t1
+        - R.m22 * Real.sin (t2 + t3) ∧
+    (wristTarget R t1 t2 t3).m21 =
+      R.m01 * Real.sin (t2 + t3) * Real.cos t1 + R.m11 * Real.sin (t2 + t3) * Real.sin t1
+        + R.m21 * Real.cos (t2 + t3) ∧
+    -(wristTarget R t1 t2 t3).m20 =
+      -R.m00 * Real.sin (t2 + t3) * Real.cos t1 - R.m10 * Real.sin (t2 + t3) * Real.sin t1
+        - R.m20 * Real.cos (t2 + t3) := by
+  simp only [wristTarget, mmOf, M3.mul, M3.transpose, r0c, lit0, Real.sin_add, Real.cos_add]
+  refine ⟨?_, ?_, ?_, ?_, ?_⟩ <;> ring
+
+theorem mmOf_sq_le_one {R : M3 ℝ} (hR : IsRot R) (t1 t2 t3 : ℝ) :
+    mmOf R t1 (t2 + t3) * mmOf R t1 (t2 + t3) ≤ 1 := by
+  have e := (IsRot_wristTarget hR t1 t2 t3).eqs
+  rw [← (wristTarget_entries R t1 t2 t3).1]
+  nlinarith [e.hc22, mul_self_nonneg (wristTarget R t1 t2 t3).m02,
+    mul_self_nonneg (wristTarget R t1 t2 t3).m12]
+
+/-- W: the wrist angles computed by the solver decompose the wrist target (`cos² θ5 ≠ 1`) -/
+theorem wristSol_spec {R : M3 ℝ} (hR : IsRot R) (t1 t2 t3 : ℝ)
+    (hm : mmOf R t1 (t2 + t3) * mmOf R t1 (t2 + t3) ≠ 1) :
+    rce (Real.sin (wristSol R (Real.sin t1) (Real.cos t1) (t2 + t3)).1)
+        (Real.cos (wristSol R (Real.sin t1) (Real.cos t1) (t2 + t3)).1)
+        (Real.sin (wristSol R (Real.sin t1) (Real.cos t1) (t2 + t3)).2.1)
+        (Real.cos (wristSol R (Real.sin t1) (Real.cos t1) (t2 + t3)).2.1)
+        (Real.sin (wristSol R (Real.sin t1) (Real.cos t1) (t2 + t3)).2.2)
+        (Real.cos (wristSol R (Real.sin t1) (Real.cos t1) (t2 + t3)).2.2) =
+      wristTarget R t1 t2 t3 := by
+  have hN := IsRot_wristTarget hR t1 t2 t3
+  have e := hN.eqs
+  obtain ⟨n22, n12, n02, n21, n20⟩ := wristTarget_entries R t1 t2 t3
+  have hle := mmOf_sq_le_one hR t1 t2 t3
+  set N := wristTarget R t1 t2 t3 with hNdef
+  set mm := mmOf R t1 (t2 + t3) with hmm
+  have hpos : 0 < 1 - mm * mm := lt_of_le_of_ne (by linarith) (fun h => hm (by linarith))
+  have hs5 : 0 < Real.sqrt (1 - mm * mm) := Real.sqrt_pos.mpr hpos
+  have hss : Real.sqrt (1 - mm * mm) * Real.sqrt (1 - mm * mm) = 1 - mm * mm :=
+    Real.mul_self_sqrt hpos.le
+  -- the three angles
+  have w4 : (wristSol R (Real.sin t1) (Real.cos t1) (t2 + t3)).1 = Complex.arg ⟨N.m02, N.m12⟩ := by
+    rw [n02, n12]; rfl
+  have w5 : (wristSol R (Real.sin t1) (Real.cos t1) (t2 + t3)).2.1 =
+      Complex.arg ⟨mm, Real.sqrt (1 - mm * mm)⟩ := by
+    rw [hmm]; unfold mmOf
+    simp only [wristSol, natan2_real, nsqrt_real, nsin_real, ncos_real, lit1]
+  have w6 : (wristSol R (Real.sin t1) (Real.cos t1) (t2 + t3)).2.2 = Complex.arg ⟨-N.m20, N.m21⟩ := by
+    rw [n20, n21]; rfl
+  rw [w4, w5, w6]
+  -- moduli
+  have r5 : Real.sqrt (mm * mm + Real.sqrt (1 - mm * mm) * Real.sqrt (1 - mm * mm)) = 1 := by
+    rw [hss, show mm * mm + (1 - mm * mm) = 1 by ring, Real.sqrt_one]
+  have r4 : Real.sqrt (N.m02 * N.m02 + N.m12 * N.m12) = Real.sqrt (1 - mm * mm) := by
+    congr 1; rw [← n22]; linear_combination e.hc22
+  have r6 : Real.sqrt (-N.m20 * -N.m20 + N.m21 * N.m21) = Real.sqrt (1 - mm * mm) := by
+    congr 1; rw [← n22]; linear_combination e.hr22
+  have c5 := re_eq_norm_cos mm (Real.sqrt (1 - mm * mm))
+  have s5 := im_eq_norm_sin mm (Real.sqrt (1 - mm * mm))
+  rw [r5, one_mul] at c5 s5
+  have c4 := re_eq_norm_cos N.m02 N.m12
+  have s4 := im_eq_norm_sin N.m02 N.m12
+  rw [r4] at c4 s4
+  have c6 := re_eq_norm_cos (-N.m20) N.m21
+  have s6 := im_eq_norm_sin (-N.m20) N.m21
+  rw [r6] at c6 s6
+  refine rce_of_zyz N hN (by rw [← s5]; exact hs5.ne') (by rw [← c5]; exact n22.symm)
+    (by rw [← s5, hss, n22]) (by rw [← s5]; exact c4.symm) (by rw [← s5]; exact s4.symm)
+    (by rw [← s5]; exact c6.symm) (by rw [← s5]; exact s6.symm)
+
+/-- W: the rotation of the forward model at a raw candidate is the requested rotation -/
+theorem roe_cand {R : M3 ℝ} (hR : IsRot R) (t1 t2 t3 : ℝ)
+    (hm : mmOf R t1 (t2 + t3) * mmOf R t1 (t2 + t3) ≠ 1) : roe (cand R t1 t2 t3) = R := by
+  have h := wristSol_spec hR t1 t2 t3 hm
+  show (r0c (Real.sin t1) (Real.cos t1) (Real.sin t2) (Real.cos t2) (Real.sin t3) (Real.cos t3)).mul
+    (rce _ _ _ _ _ _) = R
+  exact (congrArg _ h).trans (r0c_mul_wristTarget R t1 t2 t3)
+
+/-! ### The wrist condition in terms of the computed `θ5` -/
+
+theorem cand_j5 (R : M3 ℝ) (t1 t2 t3 : ℝ) :
+    (cand R t1 t2 t3).j5 =
+      Complex.arg ⟨mmOf R t1 (t2 + t3),
+        Real.sqrt (1 - mmOf R t1 (t2 + t3) * mmOf R t1 (t2 + t3))⟩ := by
+  unfold mmOf
+  simp only [cand, wristSol, natan2_real, nsqrt_real, nsin_real, ncos_real, lit1]
+
+/-- `sin θ5 ≠ 0` for the computed `θ5` says `cos² θ5 ≠ 1` for the `(3,3)` entry -/
+theorem mm_ne_of_sin_j5 (R : M3 ℝ) (t1 t2 t3 : ℝ) (h : Real.sin (cand R t1 t2 t3).j5 ≠ 0) :
+    mmOf R t1 (t2 + t3) * mmOf R t1 (t2 + t3) ≠ 1 := by
+  intro h1
+  apply h
+  rw [cand_j5, h1, sub_self, Real.sqrt_zero, Complex.sin_arg]
+  simp
+
+theorem sin_j5_of_mm_ne {R : M3 ℝ} (hR : IsRot R) (t1 t2 t3 : ℝ)
+    (h : mmOf R t1 (t2 + t3) * mmOf R t1 (t2 + t3) ≠ 1) : Real.sin (cand R t1 t2 t3).j5 ≠ 0 := by
+  have hle := mmOf_sq_le_one hR t1 t2 t3
+  rw [cand_j5]
+  set mm := mmOf R t1 (t2 + t3)
+  have hpos : 0 < 1 - mm * mm := lt_of_le_of_ne (by linarith) (fun h' => h (by linarith))
+  have hs5 : 0 < Real.sqrt (1 - mm * mm) := Real.sqrt_pos.mpr hpos
+  have hss := Real.mul_self_sqrt hpos.le
+  have s5 := im_eq_norm_sin mm (Real.sqrt (1 - mm * mm))
+  rw [hss, show mm * mm + (1 - mm * mm) = 1 by ring, Real.sqrt_one, one_mul] at s5
+  rw [← s5]; exact hs5.ne'
+
+/-! ### F. Assembly -/
+
+/-- the requested translation is the wrist centre plus `c4` along the tool axis -/
+theorem wc_add (p : Params ℝ) (pose : Iso ℝ) :
+    (wc p pose).add ((M3.scaleL p.c4 pose.q.toMat).mulVec V3.ez) = pose.t := by
+  unfold wc
+  generalize pose.q.toMat = M
+  apply V3.ext' <;> simp only [V3.sub, V3.add, M3.mulVec, M3.scaleL, V3.ez, lit0, lit1] <;> ring
+
+/-- right wrist centre and right rotation: the forward model returns the pose -/
+theorem forwardTheta_of_parts (p : Params ℝ) (pose : Iso ℝ) {θ : J6 ℝ}
+    (harm : wcθ p θ = wc p pose) (hrot : roe θ = pose.q.toMat) :
+    forwardTheta p θ = (pose.q.toMat, pose.t) := by
+  apply Prod.ext
+  · rw [forwardTheta_fst]; exact hrot
+  · rw [forwardTheta_snd, harm, hrot]; exact wc_add p pose
+
+/-- a raw candidate with the right wrist centre and `sin θ5 ≠ 0` reproduces the pose, and so does
+its wrist-flipped twin -/
+theorem forwardTheta_cand (p : Params ℝ) (pose : Iso ℝ) (hq : pose.q.normSq = 1) {t1 t2 t3 : ℝ}
+    (harm : wcθ p (cand pose.q.toMat t1 t2 t3) = wc p pose)
+    (h5 : Real.sin (cand pose.q.toMat t1 t2 t3).j5 ≠ 0) :
+    forwardTheta p (cand pose.q.toMat t1 t2 t3) = (pose.q.toMat, pose.t) :=
+  forwardTheta_of_parts p pose harm
+    (roe_cand (IsRot_toMat _ hq) t1 t2 t3 (mm_ne_of_sin_j5 _ t1 t2 t3 h5))
+
+theorem forwardTheta_cand_flip (p : Params ℝ) (pose : Iso ℝ) (hq : pose.q.normSq = 1) {t1 t2 t3 : ℝ}
+    (harm : wcθ p (cand pose.q.toMat t1 t2 t3) = wc p pose)
+    (h5 : Real.sin (flipG (cand pose.q.toMat t1 t2 t3)).j5 ≠ 0) :
+    forwardTheta p (flipG (cand pose.q.toMat t1 t2 t3)) = (pose.q.toMat, pose.t) := by
+  rw [flipG_eq, forwardTheta_flip']
+  refine forwardTheta_cand p pose hq harm ?_
+  intro h0
+  apply h5
+  show Real.sin (-(cand pose.q.toMat t1 t2 t3).j5) = 0
+  rw [Real.sin_neg, h0, neg_zero]
+
+/-- the arm condition of the `i`-th raw candidate (rows 0, 1, 4, 5: front shoulder; rows 2, 3, 6, 7:
+back shoulder) -/
+def ArmCond (p : Params ℝ) (pose : Iso ℝ) : ℕ → Prop
+  | 0 | 1 | 4 | 5 => FrontReach p (wc p pose)
+  | 2 | 3 | 6 | 7 => BackReach p (wc p pose)
+  | _ => True
+
+/-- arm part, by index -/
+theorem arm_sound_idx (p : Params ℝ) (pose : Iso ℝ) (hc : 0 < p.c2) (hk : 0 < kappa p) (i : ℕ) (t : J6 ℝ)
+    (ht : (thetaCandidates p pose)[i]? = some t) (ha : ArmCond p pose i) :
+    wcθ p t = wc p pose := by
+  rw [thetaCandidates_eq] at ht
+  match i, ha with
+  | 0, ha => cases ht; exact arm_row1 p _ _ hc hk ha
+  | 1, ha => cases ht; exact arm_row2 p _ _ hc hk ha
+  | 2, ha => cases ht; exact arm_row3 p _ _ hc hk ha
+  | 3, ha => cases ht; exact arm_row4 p _ _ hc hk ha
+  | 4, ha => cases ht; exact (wcθ_flip p _).trans (arm_row1 p _ _ hc hk ha)
+  | 5, ha => cases ht; exact (wcθ_flip p _).trans (arm_row2 p _ _ hc hk ha)
+  | 6, ha => cases ht; exact (wcθ_flip p _).trans (arm_row3 p _ _ hc hk ha)
+  | 7, ha => cases ht; exact (wcθ_flip p _).trans (arm_row4 p _ _ hc hk ha)
+  | n + 8, _ => cases ht
+
+/-- wrist part, for every raw candidate -/
+theorem wrist_sound_mem (p : Params ℝ) (pose : Iso ℝ) (hq : pose.q.normSq = 1) (t : J6 ℝ)
+    (ht : t ∈ thetaCandidates p pose) (h5 : Real.sin t.j5 ≠ 0) : roe t = pose.q.toMat := by
+  have hR := IsRot_toMat _ hq
+  have key : ∀ t1 t2 t3, Real.sin (cand pose.q.toMat t1 t2 t3).j5 ≠ 0 →
+      roe (cand pose.q.toMat t1 t2 t3) = pose.q.toMat :=
+    fun t1 t2 t3 h => roe_cand hR t1 t2 t3 (mm_ne_of_sin_j5 _ t1 t2 t3 h)
+  have keyf : ∀ t1 t2 t3, Real.sin (flipG (cand pose.q.toMat t1 t2 t3)).j5 ≠ 0 →
+      roe (flipG (cand pose.q.toMat t1 t2 t3)) = pose.q.toMat := by
+    intro t1 t2 t3 h
+    have e : roe (flipG (cand pose.q.toMat t1 t2 t3)) = roe (cand pose.q.toMat t1 t2 t3) := by
+      rw [← forwardTheta_fst p, ← forwardTheta_fst p, flipG_eq, forwardTheta_flip']
+    rw [e]
+    refine key t1 t2 t3 (fun h0 => h ?_)
+    show Real.sin (-(cand pose.q.toMat t1 t2 t3).j5) = 0
+    rw [Real.sin_neg, h0, neg_zero]
+  rw [thetaCandidates_eq] at ht
+  simp only [List.mem_cons, List.not_mem_nil, or_false] at ht
+  rcases ht with rfl | rfl | rfl | rfl | rfl | rfl | rfl | rfl
+  · exact key _ _ _ h5
+  · exact key _ _ _ h5
+  · exact key _ _ _ h5
+  · exact key _ _ _ h5
+  · exact keyf _ _ _ h5
+  · exact keyf _ _ _ h5
+  · exact keyf _ _ _ h5
+  · exact keyf _ _ _ h5
+
+/-- both parts, by index: the `i`-th raw candidate reproduces the pose under `forwardTheta` -/
+theorem candidate_sound_idx (p : Params ℝ) (pose : Iso ℝ) (hc : 0 < p.c2) (hk : 0 < kappa p)
+    (hq : pose.q.normSq = 1) (i : ℕ) (t : J6 ℝ) (ht : (thetaCandidates p pose)[i]? = some t)
+    (ha : ArmCond p pose i) (h5 : Real.sin t.j5 ≠ 0) :
+    forwardTheta p t = (pose.q.toMat, pose.t) :=
+  forwardTheta_of_parts p pose (arm_sound_idx p pose hc hk i t ht ha)
+    (wrist_sound_mem p pose hq t (List.mem_of_getElem? ht) h5)
+
+/-! ### Q. Back to joint space; the cross-check -/
+
+/-- the forward pose of the joint vector built from a θ vector that reproduces the pose -/
+theorem forward_jointsOf_eq (p : Params ℝ) (hs : SignsOk p) (pose : Iso ℝ) {t : J6 ℝ}
+    (h : forwardTheta p t = (pose.q.toMat, pose.t)) :
+    forward p (jointsOf p t) = ⟨pose.t, Quat.ofMat pose.q.toMat⟩ := by
+  rw [forward_eq, thetaOf_jointsOf p hs, h]
+
+theorem Quat.neg_mul (a b : Quat ℝ) : (a.neg).mul b = (a.mul b).neg := by
+  apply Quat.ext' <;> simp only [Quat.mul, Quat.neg] <;> ring
+
+theorem angleTo_self (q : Quat ℝ) (hq : q.normSq = 1) : Quat.angleTo q q = 0 := by
+  unfold Quat.angleTo Quat.rotationTo
+  rw [Quat.mul_conj_self _ hq]
+  simp [Quat.angle, Quat.one, Quat.imag, V3.norm, V3.normSq, V3.dot, lit0, lit1, lit2,
+    Nearest.arg_mk_im_zero]
+
+theorem angleTo_neg (q : Quat ℝ) (hq : q.normSq = 1) : Quat.angleTo q q.neg = 0 := by
+  unfold Quat.angleTo Quat.rotationTo
+  rw [Quat.neg_mul, Quat.mul_conj_self _ hq]
+  simp [Quat.angle, Quat.one, Quat.neg, Quat.imag, V3.norm, V3.normSq, V3.dot, lit0, lit1, lit2,
+    Nearest.arg_mk_im_zero]
+
+/-- two unit quaternions with the same rotation matrix are at angle `0` -/
+theorem angleTo_of_toMat_eq (a b : Quat ℝ) (ha : a.normSq = 1) (hb : b.normSq = 1)
+    (h : a.toMat = b.toMat) : Quat.angleTo a b = 0 := by
+  rcases Quat.eq_or_eq_neg_of_toMat_eq b a hb ha h.symm with e | e
+  · rw [e]; exact angleTo_self a ha
+  · rw [e]; exact angleTo_neg a ha
+
+/-- the same rigid motion passes `compare_poses` (error `0` in both parts) -/
+theorem comparePoses_of_same (a b : Iso ℝ) (ha : a.q.normSq = 1) (hb : b.q.normSq = 1)
+    (h : Iso.Same a b) {dT aT : ℝ} (hd : 0 ≤ dT) (hA : 0 ≤ aT) : comparePoses a b dT aT = true := by
+  rw [SoundReal.comparePoses_iff, h.1, angleTo_of_toMat_eq a.q b.q ha hb h.2, abs_zero]
+  refine ⟨?_, hA⟩
+  have : (b.t.sub b.t).norm = 0 := by simp [V3.norm, V3.normSq, V3.dot, V3.sub]
+  rw [this]; exact hd
+
+/-- what the solver does with a raw candidate that reproduces the pose: same rigid motion, the
+normalisation keeps the forward pose, the cross-check passes -/
+theorem finish_of_forwardTheta (p : Params ℝ) (hs : SignsOk p) (pose : Iso ℝ) (hq : pose.q.normSq = 1)
+    {t : J6 ℝ} (h : forwardTheta p t = (pose.q.toMat, pose.t)) :
+    Iso.Same (forward p (jointsOf p t)) pose ∧
+      forward p ((jointsOf p t).map normPi) = forward p (jointsOf p t) ∧
+      finishCandidate p pose (jointsOf p t) = some ((jointsOf p t).map normPi) := by
+  have hR := IsRot_toMat _ hq
+  have e := forward_jointsOf_eq p hs pose h
+  have hsame : Iso.Same (forward p (jointsOf p t)) pose := by
+    rw [e]; exact ⟨rfl, Quat.toMat_ofMat _ hR⟩
+  have hn := forward_map_normPi p hs (jointsOf p t)
+  refine ⟨hsame, hn, finishCandidate_eq_some.mpr ⟨allFinite_real _, rfl, ?_⟩⟩
+  unfold Sound
+  rw [hn]
+  refine comparePoses_of_same _ _ hq ?_ hsame.symm Nearest.distTol_nonneg Nearest.angTol_nonneg
+  rw [e]; exact Quat.normSq_ofMat _ hR
+
+theorem filterMap_eq_map_of_forall {α β : Type} (f : α → Option β) (g : α → β) :
+    ∀ l : List α, (∀ a ∈ l, f a = some (g a)) → l.filterMap f = l.map g
+  | [], _ => rfl
+  | a :: l, h => by
+    rw [List.filterMap_cons_some (h a List.mem_cons_self), List.map_cons,
+      filterMap_eq_map_of_forall f g l (fun b hb => h b (List.mem_cons_of_mem _ hb))]
+
+/-! ### The 5-DOF solver: tool axis and tool point -/
+
+theorem roe_ez (θ : J6 ℝ) :
+    (roe θ).mulVec V3.ez =
+      (r0c (Real.sin θ.j1) (Real.cos θ.j1) (Real.sin θ.j2) (Real.cos θ.j2) (Real.sin θ.j3)
+        (Real.cos θ.j3)).mulVec ⟨Real.cos θ.j4 * Real.sin θ.j5, Real.sin θ.j4 * Real.sin θ.j5,
+          Real.cos θ.j5⟩ := by
+  unfold roe
+  rw [M3.mulVec_mulVec]
+  congr 1
+  apply V3.ext' <;> simp only [rce, M3.mulVec, V3.ez, lit0, lit1] <;> ring
+
+/-- the tool axis does not depend on `θ6`, and on `θ1 … θ5` only modulo whole turns -/
+theorem roe_ez_congr5 {a b : J6 ℝ} (h : Corollaries.J5TurnEq a b) :
+    (roe a).mulVec V3.ez = (roe b).mulVec V3.ez := by
+  obtain ⟨h1, h2, h3, h4, h5⟩ := h
+  rw [roe_ez, roe_ez, h1.sin_eq, h1.cos_eq, h2.sin_eq, h2.cos_eq, h3.sin_eq, h3.cos_eq, h4.sin_eq,
+    h4.cos_eq, h5.sin_eq, h5.cos_eq]
+
+/-- the 5-DOF answer built from a raw candidate that reproduces the pose: it is returned, and has
+exactly the requested tool point and tool axis, whatever `j6` -/
+theorem finish5_of_forwardTheta (p : Params ℝ) (hs : SignsOk p) (pose : Iso ℝ) (j6 : ℝ) {t : J6 ℝ}
+    (h : forwardTheta p t = (pose.q.toMat, pose.t)) :
+    finishCandidate5 p pose j6 (jointsOf p t) = some (norm5 (jointsOf p t) j6) ∧
+      (forward p (norm5 (jointsOf p t) j6)).t = pose.t ∧
+      (forward p (norm5 (jointsOf p t) j6)).q.toMat.mulVec V3.ez = pose.q.toMat.mulVec V3.ez := by
+  have h5 := Corollaries.thetaOf_norm5_turnEq p hs t j6
+  have ht : (forward p (norm5 (jointsOf p t) j6)).t = pose.t := by
+    show (forwardTheta p (thetaOf p (norm5 (jointsOf p t) j6))).2 = _
+    rw [Corollaries.forwardTheta_tr_congr5 p h5, h]
+  refine ⟨?_, ht, ?_⟩
+  · refine finishCandidate5_eq_some.mpr ⟨Corollaries.first5Finite_real _, rfl, ?_⟩
+    unfold Sound5
+    rw [ht]
+    exact Corollaries.compareXyz_self _ Nearest.distTol_nonneg
+  · show (Quat.ofMat (forwardTheta p (thetaOf p (norm5 (jointsOf p t) j6))).1).toMat.mulVec V3.ez = _
+    rw [forwardTheta_fst, Quat.toMat_ofMat _ (IsRot_roe _), roe_ez_congr5 h5, ← forwardTheta_fst p, h]
+
+/-! ### All branch conditions at once -/
+
+theorem armCond_of_reach {p : Params ℝ} {pose : Iso ℝ} (hf : FrontReach p (wc p pose))
+    (hb : BackReach p (wc p pose)) (i : ℕ) : ArmCond p pose i := by
+  unfold ArmCond
+  split <;> first | exact hf | exact hb | trivial
+
+/-- both shoulders reach: every raw candidate with `sin θ5 ≠ 0` reproduces the pose -/
+theorem candidate_sound_mem (p : Params ℝ) (pose : Iso ℝ) (hc : 0 < p.c2) (hk : 0 < kappa p)
+    (hq : pose.q.normSq = 1) (hf : FrontReach p (wc p pose)) (hb : BackReach p (wc p pose))
+    (t : J6 ℝ) (ht : t ∈ thetaCandidates p pose) (h5 : Real.sin t.j5 ≠ 0) :
+    forwardTheta p t = (pose.q.toMat, pose.t) := by
+  obtain ⟨i, hi⟩ := List.getElem?_of_mem ht
+  exact candidate_sound_idx p pose hc hk hq i t hi (armCond_of_reach hf hb i) h5
+
+theorem thetaCandidates_length (p : Params ℝ) (pose : Iso ℝ) : (thetaCandidates p pose).length = 8 := rfl
+
+/-! ### Remarks on the branch conditions -/
+
+/-- no separate hypothesis on the shoulder `acos` (`tmp13`, `tmp15`) is needed: with the elbow ratio
+in `[−1, 1]` its argument lies in `[−1, 1]` too -/
+theorem shoulder_ratio_range (c2 κ s : ℝ) (hc : 0 < c2) (hk : 0 < κ) (hs : 0 < s)
+    (hb1 : -1 ≤ (s - c2 * c2 - κ * κ) / (2 * c2 * κ)) (hb2 : (s - c2 * c2 - κ * κ) / (2 * c2 * κ) ≤ 1) :
+    -1 ≤ (s + c2 * c2 - κ * κ) / (2 * Real.sqrt s * c2) ∧
+      (s + c2 * c2 - κ * κ) / (2 * Real.sqrt s * c2) ≤ 1 := by
+  have hS := Real.sq_sqrt hs.le
+  have hpos : 0 < Real.sqrt s := Real.sqrt_pos.mpr hs
+  set S := Real.sqrt s
+  have hden : 0 < 2 * S * c2 := by positivity
+  have hck : 0 < 2 * c2 * κ := by positivity
+  rw [le_div_iff₀ hck] at hb1
+  rw [div_le_iff₀ hck] at hb2
+  rw [le_div_iff₀ hden, div_le_iff₀ hden]
+  -- (S ± c2)² ≥ κ² … from |c2 − κ| ≤ S ≤ c2 + κ
+  constructor
+  · nlinarith [sq_nonneg (S + c2 - κ), sq_nonneg (S + c2 + κ), sq_nonneg (S + c2)]
+  · nlinarith [sq_nonneg (S - c2 - κ), sq_nonneg (S - c2 + κ), sq_nonneg (S - c2)]
+
+/-- the pose of a configuration with the wrist centre in front of the J1 axis is reachable by the
+front shoulder (link to the completeness theorem) -/
+theorem frontReach_poseOf (p : Params ℝ) (θ : J6 ℝ) (hc : 0 < p.c2) (hk : 0 < kappa p)
+    (h : 0 < cx1 p θ) : FrontReach p (wc p (poseOf p θ)) := by
+  rw [wc_poseOf]
+  refine ⟨by rw [wc_sq]; positivity, ?_, ?_⟩
+  · rw [s1sq_front p θ h, elbow_ratio p θ hc hk]; exact Real.neg_one_le_cos _
+  · rw [s1sq_front p θ h, elbow_ratio p θ hc hk]; exact Real.cos_le_one _
+
+theorem backReach_poseOf (p : Params ℝ) (θ : J6 ℝ) (hc : 0 < p.c2) (hk : 0 < kappa p)
+    (h : cx1 p θ < 0) : BackReach p (wc p (poseOf p θ)) := by
+  rw [wc_poseOf]
+  refine ⟨by rw [wc_sq]; positivity, ?_, ?_⟩
+  · rw [s2sq_back p θ h, elbow_ratio p θ hc hk]; exact Real.neg_one_le_cos _
+  · rw [s2sq_back p θ h, elbow_ratio p θ hc hk]; exact Real.cos_le_one _
+
+/-! ### A concrete instance: all branch conditions hold (used for the `example`s of C02d)
+
+Robot with `a1 = 1/2`, `a2 = 3/5`, `b = 0`, `c1 = 1/2`, `c2 = 1`, `c3 = 4/5`, `c4 = 1/4`, mixed signs and
+offsets; pose with the tool tilted about `x` (quaternion `(3/5, −4/5, 0, 0)`), wrist centre
+`(1, 0, 3/2)`: front elbow ratio `−3/8`, back elbow ratio `5/8`, `cos θ5 = −(7/25) cos θ23` in all rows. -/
+
+noncomputable def pX : Params ℝ :=
+  { a1 := 1 / 2, a2 := 3 / 5, b := 0, c1 := 1 / 2, c2 := 1, c3 := 4 / 5, c4 := 1 / 4,
+    offsets := ⟨0, 0.3, 0, -0.2, 0, 1⟩, signs := ⟨1, 1, -1, -1, 1, -1⟩, dof := 6 }
+
+noncomputable def poseX : Iso ℝ := ⟨⟨1, 6 / 25, 143 / 100⟩, ⟨3 / 5, -4 / 5, 0, 0⟩⟩
+
+theorem signsOk_pX : SignsOk pX :=
+  ⟨Or.inl rfl, Or.inl rfl, Or.inr rfl, Or.inr rfl, Or.inl rfl, Or.inr rfl⟩
+
+theorem poseX_unit : poseX.q.normSq = 1 := by
+  simp only [poseX, Quat.normSq]; norm_num
+
+theorem c2_pX : 0 < pX.c2 := by simp only [pX]; norm_num
+
+theorem kappa2_pX : kappa2 pX = 1 := by
+  show pX.a2 * pX.a2 + pX.c3 * pX.c3 = 1
+  simp only [pX]; norm_num
+
+theorem kappa_pX : kappa pX = 1 := by
+  show Real.sqrt (kappa2 pX) = 1
+  rw [kappa2_pX, Real.sqrt_one]
+
+theorem tmp9_pX : tmp9 pX = 2 := by
+  rw [tmp9_eq, kappa_pX]; simp only [pX]; norm_num
+
+theorem toMat_poseX : poseX.q.toMat = ⟨1, 0, 0, 0, -7 / 25, 24 / 25, 0, -24 / 25, -7 / 25⟩ := by
+  apply M3.ext' <;> simp only [poseX, Quat.toMat, lit2] <;> norm_num
+
+theorem wc_poseX : wc pX poseX = ⟨1, 0, 3 / 2⟩ := by
+  unfold wc
+  rw [toMat_poseX]
+  apply V3.ext' <;> simp only [poseX, pX, V3.sub, M3.mulVec, V3.ez, lit0, lit1] <;> norm_num
+
+theorem nx1_pX : nx1 pX ⟨1, 0, 3 / 2⟩ = 1 / 2 := by
+  show Real.sqrt ((1 * 1 + 0 * 0) - pX.b * pX.b) - pX.a1 = 1 / 2
+  simp only [pX]
+  rw [show (1 * 1 + 0 * 0 : ℝ) - 0 * 0 = 1 by norm_num, Real.sqrt_one]; norm_num
+
+theorem s1sq_pX : s1sq pX ⟨1, 0, 3 / 2⟩ = 5 / 4 := by
+  unfold s1sq; rw [nx1_pX]; simp only [pX]; norm_num
+
+theorem s2sq_pX : s2sq pX ⟨1, 0, 3 / 2⟩ = 13 / 4 := by
+  unfold s2sq; rw [nx1_pX, lit2]; simp only [pX]; norm_num
+
+theorem frontReach_X : FrontReach pX (wc pX poseX) := by
+  rw [wc_poseX]; unfold FrontReach
+  rw [s1sq_pX, kappa2_pX, tmp9_pX]
+  simp only [pX]; norm_num
+
+theorem backReach_X : BackReach pX (wc pX poseX) := by
+  rw [wc_poseX]; unfold BackReach
+  rw [s2sq_pX, kappa2_pX, tmp9_pX]
+  simp only [pX]; norm_num
+
+theorem armCond_X (i : ℕ) : ArmCond pX poseX i := armCond_of_reach frontReach_X backReach_X i
+
+theorem th1i_X : th1i pX (wc pX poseX) = 0 := by
+  rw [wc_poseX]; unfold th1i; rw [nx1_pX]
+  simp only [natan2_real, pX]
+  rw [Nearest.arg_mk_im_zero 1 (by norm_num), Nearest.arg_mk_im_zero _ (by norm_num)]; ring
+
+theorem th1ii_X : th1ii pX (wc pX poseX) = -Real.pi := by
+  rw [wc_poseX]; unfold th1ii; rw [nx1_pX]
+  simp only [natan2_real, pX, pi_def_real]
+  rw [Nearest.arg_mk_im_zero 1 (by norm_num), Nearest.arg_mk_im_zero _ (by norm_num)]; ring
+
+/-- in every row the tool axis is away from the forearm axis: `cos² θ5 ≤ 49/625` -/
+theorem mm_X (t1 t23 : ℝ) (h1 : Real.sin t1 = 0) :
+    mmOf poseX.q.toMat t1 t23 * mmOf poseX.q.toMat t1 t23 ≠ 1 := by
+  rw [toMat_poseX]
+  simp only [mmOf, h1]
+  have := Real.cos_sq_le_one t23
+  intro h
+  nlinarith
+
+theorem wristCond_X : ∀ t ∈ thetaCandidates pX poseX, Real.sin t.j5 ≠ 0 := by
+  have hR := IsRot_toMat _ poseX_unit
+  have s1 : Real.sin (th1i pX (wc pX poseX)) = 0 := by rw [th1i_X, Real.sin_zero]
+  have s2 : Real.sin (th1ii pX (wc pX poseX)) = 0 := by rw [th1ii_X, Real.sin_neg, Real.sin_pi, neg_zero]
+  have key : ∀ t1 t2 t3, Real.sin t1 = 0 → Real.sin (cand poseX.q.toMat t1 t2 t3).j5 ≠ 0 :=
+    fun t1 t2 t3 h => sin_j5_of_mm_ne hR t1 t2 t3 (mm_X t1 (t2 + t3) h)
+  have keyf : ∀ t1 t2 t3, Real.sin t1 = 0 → Real.sin (flipG (cand poseX.q.toMat t1 t2 t3)).j5 ≠ 0 := by
+    intro t1 t2 t3 h
+    show Real.sin (-(cand poseX.q.toMat t1 t2 t3).j5) ≠ 0
+    rw [Real.sin_neg]; exact neg_ne_zero.mpr (key t1 t2 t3 h)
+  intro t ht
+  rw [thetaCandidates_eq] at ht
+  simp only [List.mem_cons, List.not_mem_nil, or_false] at ht
+  rcases ht with rfl | rfl | rfl | rfl | rfl | rfl | rfl | rfl
+  · exact key _ _ _ s1
+  · exact key _ _ _ s1
+  · exact key _ _ _ s2
+  · exact key _ _ _ s2
+  · exact keyf _ _ _ s1
+  · exact keyf _ _ _ s1
+  · exact keyf _ _ _ s2
+  · exact keyf _ _ _ s2
 
 end Opw.IkSound
